@@ -69,7 +69,10 @@ func runC01(args []string) {
 		tier = args[0]
 	}
 	p := newPrng(101)
-	datasets := []string{"ValidModel.csv", "TestingModel.csv"}
+	permPath, permCleanup := catchPermutedDataset()
+	defer permCleanup()
+	txPermutedPath = permPath
+	datasets := []string{"ValidModel.csv", "TestingModel.csv", "PERMUTED"}
 	walkLen, walks, oracleEvery := 60, 2, 3
 	if tier == "thorough" {
 		walkLen, walks, oracleEvery = 200, 6, 1
@@ -77,11 +80,11 @@ func runC01(args []string) {
 	stats := map[string]int{}
 	failures := 0
 	for _, ds := range datasets {
-		c := catchOpen(catchTestdata(ds), nil)
+		c := catchOpen(txPath(ds), nil)
 		emit(c.export(ds))
 		emit(J{"kind": "init", "dataset": ds, "obs": c.obs()})
 		for w := 0; w < walks; w++ {
-			c = catchOpen(catchTestdata(ds), nil)
+			c = catchOpen(txPath(ds), nil)
 			ops := make([]catchOp, 0, walkLen)
 			obs := make([]J, 0, walkLen)
 			for s := 0; s < walkLen; s++ {
@@ -102,7 +105,7 @@ func runC01(args []string) {
 		}
 		// exhaustive Gray-code walk over all 2^n sets: implementation-side oracle at every state (thorough),
 		// a prefix of it in the quick tier
-		g := catchOpen(catchTestdata(ds), nil)
+		g := catchOpen(txPath(ds), nil)
 		limit := 256
 		if tier == "thorough" {
 			limit = 1 << uint(g.nact)
